@@ -46,7 +46,7 @@ Yield(restart) ==
                         ELSE Walk(ij[1], ij[2], <<ij>>)
                IN /\ ~restart      \* restart is modelled by Restart followed by Yield(FALSE)
                   /\ matches' = Append(matches, [path |-> p, restart |-> (Len(matches) > 0 /\ matches[Len(matches)].restartnext)
-                                                 , restartnext |-> FALSE])
+                                                 , restartnext |-> FALSE, fresh |-> (consumed = {}), minlen |-> 1])
                   /\ consumed' = consumed \cup CellsOf(p)
     /\ UNCHANGED <<c, M, stage>>
 Restart == /\ stage = 1 /\ consumed # {} /\ Len(matches) >= 1 /\ ~matches[Len(matches)].restartnext
